@@ -265,9 +265,12 @@ func (handler *HeadersHandler) Handle(ctx context.Context, m wire.Message) ([]wi
 			continue
 		}
 
-		// Ignore unknown blocks as they might happen when there is a reorg.
+		// Ignore unknown blocks as they might happen when there is a reorg. The peer has headers
+		// that don't connect to anything known here, so this node is not in sync with it. Leaving
+		// the in sync state makes the next check request headers from the latest known block.
 		logger.Verbose(ctx, "Unknown header : %s", hash)
 		logger.Verbose(ctx, "Previous hash : %s", header.PrevBlock)
+		handler.state.ClearInSync()
 		return nil, nil //errors.New(fmt.Sprintf("Unknown header : %s", hash))
 	}
 
